@@ -631,8 +631,9 @@ class Ledger(object):
         """Open credits that the conductor still owes an offer for (ready work)."""
         return [c for c in self.open_credits()]
 
-    def leaves(self):
-        """Executions (and engine-command pseudo executions) after which nothing further ran."""
+    def leaves(self, with_seq=False):
+        """Executions (and engine-command pseudo executions) after which nothing further ran,
+        in the order their records were created."""
         out = []
         for x in self.execs:
             if x.state == "done" and not any(
@@ -642,4 +643,6 @@ class Ledger(object):
         for c in self.cmd_execs:
             out.append((c["order"], c["ref"]))
         out.sort(key=lambda e: e[0])
+        if with_seq:
+            return out
         return [r for _, r in out]
